@@ -322,8 +322,12 @@ impl Run {
                         self.model.insert(cl, set_snapshot_spec(&pre, v, 0, &data));
                     } else if snap_corner(&pre, v) {
                         // unspecified corner: adopt what the implementation did, if it is one of the two allowed outcomes
-                        let probe = self.world.probe();
-                        let real = absfn::via_api(probe.as_ref(), cl, &self.universe).map_err(|e| self.viol(&["C13"], format!("probe failed: {e}")))?;
+                        // (read through the very server instance that served the request: a fresh storage object would already be
+                        // a re-open, and what a re-open does to the stored snapshot is exactly what is being checked afterwards)
+                        let real = {
+                            let mut t = self.world.server.txn(cl).map_err(|e| self.viol(&["C13"], format!("probe failed: {e}")))?;
+                            absfn::via_txn(t.as_mut(), &self.universe).map_err(|e| self.viol(&["C13"], format!("probe failed: {e}")))?
+                        };
                         let applied = set_snapshot_spec(&pre, v, 0, &data);
                         if real == applied {
                             mutating_expected = true;
@@ -510,6 +514,11 @@ pub fn seed_prefixes() -> Vec<Vec<Op>> {
     s.push(Op::AddVersion(1, IdSel::ForeignLatest, 1));
     s.push(Op::AddVersion(1, IdSel::Latest, 2));
     out.push(s);
+    // a chain started from a non-nil base with a snapshot taken AT that base (the id is no stored version of the client)
+    let mut s = grow(0, 2, IdSel::Fresh);
+    s.push(Op::AddSnap(0, IdSel::Base, 2));
+    s.push(Op::GetSnap(0));
+    out.push(s);
     // two clients that both start from the nil version (their first versions share the parent id), then both grow
     let mut s = grow(0, 2, IdSel::Nil);
     s.extend(grow(1, 2, IdSel::Nil));
@@ -547,10 +556,23 @@ pub fn isolation_tag(kind: BackendKind, cfg: (i64, u32), executed: &[Op], v: &mu
     if executed.iter().all(|o| op_client(o) == c) {
         return;
     }
-    let own: Vec<Op> = executed.iter().filter(|o| op_client(o) == c).cloned().collect();
-    if own.iter().any(op_foreign) {
+    // the failing client's own requests; an id that belongs to the OTHER client is, for this client alone, just an id that
+    // belongs to nobody: replaced by a fresh one (only when the other client did have versions, so that it was not nil)
+    let other_has_versions = executed.iter().any(|o| op_client(o) != c && matches!(o, Op::AddVersion(..)));
+    if executed.iter().any(|o| op_client(o) == c && op_foreign(o)) && !other_has_versions {
         return;
     }
+    let unforeign = |s: IdSel| if matches!(s, IdSel::ForeignLatest | IdSel::ForeignAncestor(_) | IdSel::ForeignBase) { IdSel::Fresh } else { s };
+    let own: Vec<Op> = executed
+        .iter()
+        .filter(|o| op_client(o) == c)
+        .map(|o| match o {
+            Op::AddVersion(c, s, p) => Op::AddVersion(*c, unforeign(*s), *p),
+            Op::Gcv(c, s) => Op::Gcv(*c, unforeign(*s)),
+            Op::AddSnap(c, s, p) => Op::AddSnap(*c, unforeign(*s), *p),
+            other => other.clone(),
+        })
+        .collect();
     let mut run = Run::new(kind, cfg);
     for op in &own {
         if run.step(op).is_err() {
